@@ -124,7 +124,8 @@ pub fn c06(a: &Args) {
                 }
                 // model: same history through the Lean cursor machine (exact pages, exact order)
                 if si % 2 == 0 {
-                    out.circuit(&export, &format!("circuit nodes={} wf={} count={}", d.nodes.len(), if file.n <= 12 { "true" } else { "struct" }, d.rc()));
+                    out.circuit(&export, &circuit_line(&d));
+                    out.query("enumok", "", "true");
                     for (k, p) in ks.iter().zip(pages.iter()) {
                         out.query("enum", &format!("{} {}", k, fmt_ints(&al)), &match p { Some(p) => fmt_cfgs(p), None => "none".into() });
                     }
